@@ -48,7 +48,7 @@ def nested(rng, shape, pool):
 
 
 def rand_poly(rng, shape=None, names=None, maxterms=3, maxexp=3, dtype="int64", pool=None, shapes=SHAPES,
-              names_pool=("q0", "q1", "q2"), force_const_row=False, exps=None):
+              names_pool=("q0", "q1", "q2", "q10"), force_const_row=False, exps=None):
     if shape is None:
         shape = rng.choice(shapes)
     if names is None:
